@@ -136,9 +136,23 @@ func checkCombinatorShapes(c *Ctx, rule, mapperPkg string) map[token.Pos]bool {
 			}
 		}
 	})
+	// the statements that define the combinators: New's own, and those of the methods it calls to define a group of them
+	var initStmts []ast.Stmt
+	for _, st := range newFn.Body.List {
+		initStmts = append(initStmts, st)
+		if es, ok := st.(*ast.ExprStmt); ok {
+			if call, ok := es.X.(*ast.CallExpr); ok {
+				if fo, ok := objOf(pp.TypesInfo, call.Fun).(*types.Func); ok && fo.Pkg() == pp.Types {
+					if hd := declOfFunc(pp, fo); hd != nil && hd.Body != nil && hd.Recv != nil {
+						initStmts = append(initStmts, hd.Body.List...)
+					}
+				}
+			}
+		}
+	}
 	run := func() {
 		env.changed = false
-		for _, st := range newFn.Body.List {
+		for _, st := range initStmts {
 			as, ok := st.(*ast.AssignStmt)
 			if !ok || len(as.Lhs) != 1 || len(as.Rhs) != 1 {
 				continue
@@ -553,14 +567,21 @@ func (env *combEnv) evalMapper(p *packages.Package, fd *ast.FuncDecl, in shape) 
 			}
 			env.covered[v.Pos()] = true
 			okLen := true
+			// l[a:b] with a constant b: in range when every form of the list has at least b elements
+			hi, hiKnown := -1, v.High == nil
+			if v.High != nil {
+				if kk, ok := constInt(info, v.High); ok && int(kk) >= from {
+					hi, hiKnown = int(kk), true
+				}
+			}
 			for _, a := range base.alts {
 				switch a.kind {
 				case "list":
-					if from > len(a.elems) {
+					if from > len(a.elems) || (hi >= 0 && hi > len(a.elems)) {
 						okLen = false
 					}
 				case "rep":
-					if from > 1 {
+					if from > 1 || (hi >= 0 && hi > 1) {
 						okLen = false
 					}
 				default:
@@ -568,7 +589,7 @@ func (env *combEnv) evalMapper(p *packages.Package, fd *ast.FuncDecl, in shape) 
 				}
 			}
 			if env.record {
-				env.c.Check(env.rule, fmt.Sprintf("%s: %s within the list", k, types.ExprString(v)), v.Pos(), okLen && v.High == nil,
+				env.c.Check(env.rule, fmt.Sprintf("%s: %s within the list", k, types.ExprString(v)), v.Pos(), okLen && hiKnown,
 					fmt.Sprintf("the list can have the form %s: the slice bounds can be out of range", base.key()))
 			}
 			rest := allElems(base, from)
@@ -732,7 +753,8 @@ func (env *combEnv) evalMapper(p *packages.Package, fd *ast.FuncDecl, in shape) 
 		}
 	}
 	walk = func(stmts []ast.Stmt) {
-		for _, st := range stmts {
+		for si, st := range stmts {
+			_ = si
 			switch s := st.(type) {
 			case *ast.AssignStmt:
 				checkExprs(s)
@@ -759,11 +781,19 @@ func (env *combEnv) evalMapper(p *packages.Package, fd *ast.FuncDecl, in shape) 
 			case *ast.IfStmt:
 				var nobj types.Object
 				var nT types.Type
+				negated := false
 				if init, ok := s.Init.(*ast.AssignStmt); ok && len(init.Lhs) == 2 && len(init.Rhs) == 1 {
 					if ta, ok := ast.Unparen(init.Rhs[0]).(*ast.TypeAssertExpr); ok && ta.Type != nil {
 						if okid, ok := init.Lhs[1].(*ast.Ident); ok {
 							if cid, ok := ast.Unparen(s.Cond).(*ast.Ident); ok && info.Uses[cid] == info.Defs[okid] {
 								nobj, nT = resultVarOf(ta.X), info.TypeOf(ta.Type)
+							}
+							// if _, ok := x.(T); !ok { return ... }: the body runs for the other forms, what follows for T
+							if u, ok := ast.Unparen(s.Cond).(*ast.UnaryExpr); ok && u.Op == token.NOT {
+								if cid, ok := ast.Unparen(u.X).(*ast.Ident); ok && info.Uses[cid] == info.Defs[okid] {
+									nobj, nT = resultVarOf(ta.X), info.TypeOf(ta.Type)
+									negated = true
+								}
 							}
 						}
 					}
@@ -772,6 +802,21 @@ func (env *combEnv) evalMapper(p *packages.Package, fd *ast.FuncDecl, in shape) 
 					walk([]ast.Stmt{s.Init})
 				}
 				checkExprs(s.Cond)
+				if negated {
+					withNarrow(nobj, nT, false, func() { walk(s.Body.List) })
+					if s.Else != nil {
+						withNarrow(nobj, nT, true, func() { walk([]ast.Stmt{s.Else}) })
+					}
+					// a body that always leaves the function narrows everything after the statement
+					if s.Else == nil && len(s.Body.List) > 0 {
+						if _, isRet := s.Body.List[len(s.Body.List)-1].(*ast.ReturnStmt); isRet {
+							rest := stmts[si+1:]
+							withNarrow(nobj, nT, true, func() { walk(rest) })
+							return
+						}
+					}
+					break
+				}
 				withNarrow(nobj, nT, true, func() { walk(s.Body.List) })
 				if s.Else != nil {
 					withNarrow(nobj, nT, false, func() { walk([]ast.Stmt{s.Else}) })
